@@ -105,82 +105,78 @@
         core::mem::forget(p);
     }
 
-    // ------------------------------------------------------------------ C05: reassembly
-    fn check_reassembly(first_then_second: bool, total: u32, with_noise: bool) {
+    // ------------------------------------------------------------------ C05: reassembly from an arbitrary buffer order
+    /// Reassembly core, one call.  The fragment buffer (built as a literal: the field is private but visible to this child
+    /// module) holds, in ARRIVAL order 2,[foreign],1, the two fragments of sample sn (payload 3 or 4 arbitrary bytes, fragment
+    /// size 2) and one fragment of ANOTHER sample osn != sn carrying other arbitrary bytes and the same fragment number 1.
+    /// reconstruct_data_from_frag(sn) returns Some(DATA) whose payload is byte-identical to the original (ordered by fragment
+    /// number, not by arrival; no byte of the other sample), with sequence number sn; afterwards only the foreign fragment
+    /// is still buffered.
+    /// @props C05 C01
+    /// @kind bounded
+    /// @tier quick
+    /// @timeout 1200
+    /// @bounds payload 3 or 4 symbolic bytes, fragment size 2, 2 fragments + 1 foreign fragment, arrival order 2,foreign,1
+    /// @cbmc --unwind 6 --unwindset memcmp.0:18
+    /// @fn RtpsWriterProxy::reconstruct_data_from_frag, total_fragments_expected
+    #[cfg_attr(kani, kani::proof)]
+    fn c05_reassembly_by_fragment_number_not_arrival_order() {
         let bytes: [u8; 4] = kani::any();
         let other: [u8; 2] = kani::any();
         let sn: i64 = kani::any();
         let osn: i64 = kani::any();
         kani::assume(osn != sn);
-        let mut p = any_proxy_with(Vec::new());
+        let short: bool = kani::any();
+        let total: u32 = if short { 3 } else { 4 };
         let f1 = frag(sn, 1, 2, total, &bytes[0..2]);
-        let f2 = if total == 4 { frag(sn, 2, 2, total, &bytes[2..4]) } else { frag(sn, 2, 2, total, &bytes[2..3]) };
-        let (a, b) = if first_then_second { (f1, f2) } else { (f2, f1) };
-        if with_noise {
-            p.push_data_frag(a.clone());
-            assert!(p.reconstruct_data_from_frag(sn).is_none(), "C05: incomplete sample is not delivered");
-            p.push_data_frag(frag(osn, 1, 2, 4, &other)); // fragment of another sample, other bytes
-            p.push_data_frag(a);                           // duplicate
-            assert!(p.reconstruct_data_from_frag(sn).is_none(), "C05: duplicate / foreign fragments do not complete a sample");
-        } else {
-            p.push_data_frag(a);
-            assert!(p.reconstruct_data_from_frag(sn).is_none(), "C05: incomplete sample is not delivered");
-        }
-        p.push_data_frag(b);
+        let f2 = if short { frag(sn, 2, 2, total, &bytes[2..3]) } else { frag(sn, 2, 2, total, &bytes[2..4]) };
+        let fo = frag(osn, 1, 2, 4, &other);
+        let mut buf = Vec::new();
+        buf.push(f2);
+        buf.push(fo);
+        buf.push(f1);
+        let mut p = any_proxy_with(buf);
         let d = p.reconstruct_data_from_frag(sn);
-        assert!(d.is_some(), "C05: complete sample is delivered");
+        assert!(d.is_some(), "C05: a sample whose fragments are all buffered is delivered");
         let d = d.unwrap();
-        assert!(d.writer_sn() == sn);
+        assert!(d.writer_sn() == sn, "C05: with its own sequence number");
         {
             let out: &[u8] = d.serialized_payload().as_ref();
             assert!(out.len() == total as usize, "C05: reassembled length equals the original");
-            assert!(out[0] == bytes[0] && out[1] == bytes[1] && out[2] == bytes[2], "C05: reassembled bytes equal the original");
-            if total == 4 { assert!(out[3] == bytes[3]); }
+            assert!(out[0] == bytes[0] && out[1] == bytes[1] && out[2] == bytes[2], "C05: reassembled bytes equal the original, in fragment-number order");
+            if !short { assert!(out[3] == bytes[3], "C05: reassembled bytes equal the original"); }
         }
-        if with_noise {
-            assert!(p.frag_buffer.len() == 1 && p.frag_buffer[0].writer_sn() == osn, "C05: only the completed sample's fragments are consumed");
-        } else {
-            assert!(p.frag_buffer.len() == 0);
-        }
+        assert!(p.frag_buffer.len() == 1 && p.frag_buffer[0].writer_sn() == osn, "C05: only the completed sample's fragments are consumed");
+        kani::cover!(short);
+        kani::cover!(!short && other[0] != bytes[0]);
         core::mem::forget(p);
         core::mem::forget(d);
     }
 
-    /// Reassembly, 2 fragments in order (payload 4 bytes = exact multiple of the fragment size 2): None until complete, then
-    /// Some(DATA) with byte-identical payload and the right sequence number; fragments consumed.
+    /// An incomplete sample is never delivered: with only fragment 2 of 2 buffered (plus a fragment 1 of another sample),
+    /// reconstruct_data_from_frag(sn) is None and the buffer is untouched.
     /// @props C05
     /// @kind bounded
     /// @tier quick
-    /// @bounds payload 4 symbolic bytes, fragment size 2, 2 fragments, arrival order 1,2
-    /// @cbmc --unwind 5 --unwindset memcmp.0:18
-    /// @fn RtpsWriterProxy::push_data_frag, RtpsWriterProxy::reconstruct_data_from_frag, total_fragments_expected
-    #[cfg_attr(kani, kani::proof)]
-    fn c05_reassembly_in_order_exact_multiple() {
-        check_reassembly(true, 4, false);
-    }
-
-    /// Reassembly, 2 fragments reordered (payload 3 bytes: short last fragment arrives first).
-    /// @props C05
-    /// @kind bounded
-    /// @tier quick
-    /// @bounds payload 3 symbolic bytes, fragment size 2, 2 fragments, arrival order 2,1
-    /// @cbmc --unwind 5 --unwindset memcmp.0:18
-    /// @fn RtpsWriterProxy::push_data_frag, RtpsWriterProxy::reconstruct_data_from_frag, total_fragments_expected
-    #[cfg_attr(kani, kani::proof)]
-    fn c05_reassembly_reordered_short_tail() {
-        check_reassembly(false, 3, false);
-    }
-
-    /// Reassembly with a duplicate of the first-arrived fragment and a fragment of ANOTHER sample (other sequence
-    /// number, other bytes) interleaved, reordered arrival: the foreign bytes never enter the payload, the duplicate does
-    /// not complete the sample, the foreign fragment stays buffered.
-    /// @props C05
-    /// @kind bounded
-    /// @tier quick
-    /// @bounds payload 4 symbolic bytes, fragment size 2, arrival 2,[foreign],2(dup),1
+    /// @timeout 1200
+    /// @bounds fragment size 2, data size 4, 1 of 2 fragments + 1 foreign fragment
     /// @cbmc --unwind 6 --unwindset memcmp.0:18
-    /// @fn RtpsWriterProxy::push_data_frag, RtpsWriterProxy::reconstruct_data_from_frag
+    /// @fn RtpsWriterProxy::reconstruct_data_from_frag
     #[cfg_attr(kani, kani::proof)]
-    fn c05_reassembly_duplicate_and_foreign_fragment() {
-        check_reassembly(false, 4, true);
+    fn c05_incomplete_sample_not_delivered() {
+        let bytes: [u8; 2] = kani::any();
+        let other: [u8; 2] = kani::any();
+        let sn: i64 = kani::any();
+        let osn: i64 = kani::any();
+        kani::assume(osn != sn);
+        let which: bool = kani::any();
+        let mut buf = Vec::new();
+        buf.push(frag(sn, if which { 1 } else { 2 }, 2, 4, &bytes));
+        buf.push(frag(osn, if which { 2 } else { 1 }, 2, 4, &other));
+        let mut p = any_proxy_with(buf);
+        let d = p.reconstruct_data_from_frag(sn);
+        assert!(d.is_none(), "C05: a sample with a missing fragment is not delivered (another sample's fragment does not complete it)");
+        assert!(p.frag_buffer.len() == 2, "C05: its fragments stay buffered");
+        core::mem::forget(p);
+        core::mem::forget(d);
     }
